@@ -377,6 +377,8 @@ StatAlloc(const int_t n, const int_t nprocs, const int_t panel_size,
     Gstat->panel_histo = intCalloc(w);
     Gstat->utime = (double *) SUPERLU_MALLOC(NPHASES * sizeof(double));
     Gstat->ops   = (flops_t *) SUPERLU_MALLOC(NPHASES * sizeof(flops_t));
+    if ( !Gstat->utime || !Gstat->ops )
+	SUPERLU_ABORT( "SUPERLU_MALLOC failed for utime[]/ops[]" );
     
     if ( !(Gstat->procstat =
 	   (procstat_t *) SUPERLU_MALLOC(nprocs*sizeof(procstat_t))) )
